@@ -76,34 +76,45 @@ def stepOf? (j : Json) : Option Step := do
   | [.str "restart", dn] => do let dn ← jNat? dn; some (.restart dn)
   | _ => none
 
-/-- Steps with absolute times, as the harness observes them: `["cycle_at", t, wait, x, dur, lag]`,
-    `["restart_at", t]`. Converted to the model's relative steps by following the model's own
-    clock (after an attempt the clock is the merge time); a step in the past is an error. -/
+/-- Steps with absolute times, as the harness observes them:
+    `["cycle_at", t, wait, x, dur, lag, view, stored]`, `["restart_at", t]`. Converted to the model's
+    relative steps by following the model's own clock (after an attempt the clock is the merge
+    time); a step in the past is an error. -/
 inductive AbsStep where
-  | cycleAt (t : Int) (wait : Nat) (x : Raised) (dur lag : Nat)
+  | cycleAt (t : Int) (wait : Nat) (x : Raised) (dur lag : Nat) (view : Nat) (stored : Bool)
   | restartAt (t : Int)
 
 def absStepOf? (j : Json) : Option AbsStep := do
   match ← jArr? j with
-  | [.str "cycle_at", t, wait, x, dur, lag] => do
+  | [.str "cycle_at", t, wait, x, dur, lag, view, stored] => do
       let t ← jInt? t; let wait ← jNat? wait; let x ← raisedOf? x; let dur ← jNat? dur; let lag ← jNat? lag
-      some (.cycleAt t wait x dur lag)
+      let view ← jNat? view; let stored ← jBool? stored
+      some (.cycleAt t wait x dur lag view stored)
   | [.str "restart_at", t] => do let t ← jInt? t; some (.restartAt t)
   | _ => none
 
-def runAbs (env : Env) (l : Limits) : Int → Rec → List AbsStep → Option (List Ev)
+def runAbs (env : Env) (l : Limits) : Int → List Rec → List AbsStep → Option (List Ev)
   | _, _, [] => some []
-  | now, r, .restartAt t :: rest =>
+  | now, hist, .restartAt t :: rest =>
       if t < now then none else do
-        let evs := run env l now r [.restart (t - now).toNat]
-        let tl ← runAbs env l t (fromStorage (toStorage r) t) rest
+        let evs := runEnv env l now hist [.restart (t - now).toNat]
+        let tl ← runAbs env l t hist rest
         some (evs ++ tl)
-  | now, r, .cycleAt t wait x dur lag :: rest =>
+  | now, hist, .cycleAt t wait x dur lag view stored :: rest =>
       if t < now then none else
-        match run env l now r [.cycle (t - now).toNat wait x dur lag] with
-        | [.att a] => do let tl ← runAbs env l a.merged a.recAfter rest; some (.att a :: tl)
-        | [ev] => do let tl ← runAbs env l t r rest; some (ev :: tl)
+        match runEnv env l now hist [.cycle view stored (t - now).toNat wait x dur lag] with
+        | [.att a] => do
+            let tl ← runAbs env l a.merged (if stored then a.recAfter :: hist else hist) rest
+            some (.att a :: tl)
+        | [ev] => do let tl ← runAbs env l t hist rest; some (ev :: tl)
         | _ => none
+
+def raisedJ : Raised → Json
+  | .ok => .arr #[.str "ok"]
+  | .permanent => .arr #[.str "permanent"]
+  | .arbitrary => .arr #[.str "arbitrary"]
+  | .temporary d => .arr #[.str "temporary", optInt d]
+  | .childrenRetry d => .arr #[.str "children", optInt d]
 
 def scriptOf? (j : Json) : Option (List (Raised × Nat)) := do
   let xs ← jArr? j
@@ -135,10 +146,11 @@ def handle : DrvHandler := fun op args =>
       let r0 := match r with | some r => r | none => fromScratch now
       some (ok (.arr ((run env lim now r0 steps).map evJ).toArray))
   | "C11.runAbs", [env, lim, now, steps] => do
-      -- from scratch at `now`; steps carry absolute observed times
+      -- from an object without a record; steps carry absolute observed times, the view and
+      -- whether the cycle's patch landed
       let env ← envOf? env; let lim ← limitsOf? lim; let now ← jInt? now
       let steps ← (← jArr? steps).mapM absStepOf?
-      match runAbs env lim now (fromScratch now) steps with
+      match runAbs env lim now [] steps with
       | some evs => some (ok (.arr (evs.map evJ).toArray))
       | none => some (err "time-went-back")
   | "C11.loop", [env, lim, now, script] => do
@@ -152,7 +164,12 @@ def handle : DrvHandler := fun op args =>
       let interval ← jNat? interval; let sharp ← jBool? sharp
       let script ← scriptOf? script
       if interval == 0 then some (err "zero-interval") else
-      some (ok (.arr ((timerRun env lim interval sharp now (fromScratch now) script).map attJ).toArray))
+      some (ok (.arr ((timerRun env lim interval sharp now (fromScratch now) script).map evJ).toArray))
+  | "C11.children", [subs, now] => do
+      -- what kopf.execute() raises in the parent, given the sub-handlers' records after their batch
+      let subs ← (← jArr? subs).mapM recOf?
+      let now ← jInt? now
+      some (ok (raisedJ (childrenRaised subs now)))
   | "C11.roundtrip", [r, now] => do
       let r ← recOf? r; let now ← jInt? now
       some (ok (recJ (fromStorage (toStorage r) now)))
